@@ -109,20 +109,27 @@ type ClockedManager interface {
 // payment.contractPayment does with the on-chain deposit.
 type DepositStore struct {
 	store.BalanceStore
-	mu  sync.Mutex
-	dep map[store.Account]*big.Int
+	mu     sync.Mutex
+	dep    map[store.Account]*big.Int
+	shadow map[store.Account]string // decimal value at SetDeposit time
 }
 
 func NewDepositStore(inner store.BalanceStore) *DepositStore {
-	return &DepositStore{BalanceStore: inner, dep: map[store.Account]*big.Int{}}
+	return &DepositStore{BalanceStore: inner, dep: map[store.Account]*big.Int{}, shadow: map[store.Account]string{}}
 }
 
 func (d *DepositStore) SetDeposit(a store.Account, v *big.Int) {
 	d.mu.Lock()
-	d.dep[a] = new(big.Int).Set(v)
+	// decoded the way the contract bindings hand out amounts: a big.Int with its own digit array
+	d.dep[a] = new(big.Int).SetBytes(v.Bytes())
+	if v.Sign() < 0 {
+		d.dep[a].Neg(d.dep[a])
+	}
+	d.shadow[a] = v.String()
 	d.mu.Unlock()
 }
 
+// Deposit returns a private copy of the cached deposit (for the harness).
 func (d *DepositStore) Deposit(a store.Account) *big.Int {
 	d.mu.Lock()
 	defer d.mu.Unlock()
@@ -130,6 +137,33 @@ func (d *DepositStore) Deposit(a store.Account) *big.Int {
 		return new(big.Int).Set(v)
 	}
 	return new(big.Int)
+}
+
+// cached returns the cached *big.Int itself, like payment.balanceCache.Get:
+// contractPayment copies the struct (`balance.Deposit = *deposit`), so the
+// balance it hands out shares its digits with the cache.
+func (d *DepositStore) cached(a store.Account) *big.Int {
+	d.mu.Lock()
+	defer d.mu.Unlock()
+	if v, ok := d.dep[a]; ok {
+		return v
+	}
+	return new(big.Int)
+}
+
+// Corrupted lists accounts whose cached deposit no longer has the value it was
+// set to (someone wrote through a balance that was handed out).
+func (d *DepositStore) Corrupted() []string {
+	d.mu.Lock()
+	defer d.mu.Unlock()
+	out := []string{}
+	for a, v := range d.dep {
+		if v.String() != d.shadow[a] {
+			out = append(out, fmt.Sprintf("%s: set to %s, now %s", a, d.shadow[a], v.String()))
+		}
+	}
+	sort.Strings(out)
+	return out
 }
 
 func (d *DepositStore) GetNodeBalance(id store.NodeID) (store.Balance, error) {
@@ -140,7 +174,7 @@ func (d *DepositStore) GetNodeBalance(id store.NodeID) (store.Balance, error) {
 	if len(b.Account) == 0 {
 		return b, nil
 	}
-	b.Deposit = *d.Deposit(b.Account)
+	b.Deposit = *d.cached(b.Account)
 	return b, nil
 }
 
@@ -149,7 +183,7 @@ func (d *DepositStore) GetAccountBalance(a store.Account) (store.Balance, error)
 	if err != nil {
 		return b, err
 	}
-	b.Deposit = *d.Deposit(a)
+	b.Deposit = *d.cached(a)
 	return b, nil
 }
 
